@@ -890,8 +890,9 @@ func (p *Parser) parseNameString() ([]byte, parseResult) {
 
 	switch next {
 	case 0x00: // NullName (null string or a name terminator)
-		startOffset = p.r.Offset()
-		// return empty string
+		// return the prefix chars (e.g. "\\" for the root scope) without
+		// the terminator; this is the empty string if there are none
+		startOffset++
 	case 0x2e: // DualNamePath := DualNamePrefix NameSeg NameSeg
 		endOffset = p.r.Offset() + uint32(amlNameLen*2)
 		if endOffset > p.r.pkgEnd {
